@@ -210,13 +210,28 @@ def apply(world, op):
                     return None
                 world.count('op:add_attacker-used-id:accepted')
             else:
-                if aid is not None:
+                if aid is None and not reached and eps:
+                    g.add_attacker(a, entry_points=eps)          # reached steps left to the default
+                    world.count('class:add_attacker-default-reached')
+                elif aid is None and not reached and not eps:
+                    g.add_attacker(a)                              # everything left to the defaults
+                    world.count('class:add_attacker-all-defaults')
+                elif aid is not None:
                     g.add_attacker(a, attacker_id=aid, entry_points=eps, reached_attack_steps=reached)
                     if a.id != aid:
                         return ('ids:explicit-%s-ignored' % ('zero' if aid == 0 else 'id'), 'add_attacker(attacker_id=%r) gave id %r' % (aid, a.id))
                 else:
                     g.add_attacker(a, entry_points=eps, reached_attack_steps=reached)
                 world.count('op:add_attacker')
+            if kind == 'add_attacker' and any(x is a for x in g.attackers):
+                want_r = {i for i in reached}
+                got_r = {n.id for n in a.reached_attack_steps}
+                want_e = set(eps)
+                got_e = {n.id for n in a.entry_points}
+                if got_r != want_r or got_e != want_e:
+                    return ('attackgraph.add_attacker:wrong-initial-steps',
+                            'add_attacker(entry_points=%s, reached_attack_steps=%s) gave entry points %s and reached steps %s' % (
+                                sorted(want_e), sorted(want_r), sorted(got_e), sorted(got_r)))
         elif kind == 'remove_attacker':
             a = att(op[1])
             if a is None:
